@@ -343,4 +343,69 @@ def new_client_framed_from_first_byte(cut: int, b0: int, b1: int, e0: int, e1: i
         return sink.packets == [good]
 
 
+def _server_client(loop, kind, sink):
+    """open the server transport of `kind`; returns feed(chunks): one client that sends the chunks in order"""
+    if kind == 'ws':
+        from bumble.transport import ws_server
+        import websockets.asyncio.server as wss
+        captured = {}
+
+        async def serve(handler, host=None, port=None, **kw):
+            captured['handler'] = handler
+            return object()
+        saved = wss.serve
+        wss.serve = serve
+        try:
+            t = loop.create_task(ws_server.open_ws_server_transport('_:1'))
+            loop.run_ready()
+            transport = t.result()
+        finally:
+            wss.serve = saved
+        transport.source.set_packet_sink(sink)
+
+        class Conn:
+            local_address = remote_address = 'x'
+
+            def __init__(self, frames):
+                self.frames = list(frames)
+
+            def __aiter__(self):
+                return self
+
+            async def __anext__(self):
+                if self.frames:
+                    return self.frames.pop(0)
+                raise StopAsyncIteration
+
+        def feed(chunks):
+            loop.create_task(captured['handler'](Conn(chunks)))
+            loop.run_ready()
+        return feed
+    transport, factory = _open_stream_server(loop, kind)
+    transport.source.set_packet_sink(sink)
+
+    def feed(chunks):
+        c = factory()
+        c.connection_made(_FakeTransport())
+        for ch in chunks:
+            c.data_received(ch)
+    return feed
+
+
+@harness(pre=['1 <= cut <= 7 and 0 <= b0 <= 255 and 0 <= b1 <= 255 and 0 <= e0 <= 255 and 0 <= e1 <= 255'], family='server', grid={'kind': ['tcp', 'unix', 'ws'], 't1': [4, 2]},
+         kernels=K + ('bumble.transport.tcp_server._open_tcp_server_transport_impl', 'bumble.transport.unix.open_unix_server_transport',
+                      'bumble.transport.ws_server.open_ws_server_transport', 'bumble.transport.common.StreamPacketSource.data_received'),
+         bounds='TCP / UNIX / WebSocket server transport, one client: a 7-byte event or 8-byte ACL packet split after 1..7 bytes (symbolic position and bytes) across two messages, the second message also carrying the start of the next packet, whose rest comes in a third: both packets are emitted intact and in order')
+def server_stream_chunking(cut: int, b0: int, b1: int, e0: int, e1: int, kind: str, t1: int) -> bool:
+    with detloop.running() as loop:
+        first = _B(4, 0x0E, 4, b0, b1, 3, 4) if t1 == 4 else _B(2, b0, b1, 3, 0, 1, 2, 3)
+        if cut >= len(first):
+            return True
+        good = _B(4, e0, 1, e1)
+        sink = Sink()
+        feed = _server_client(loop, kind, sink)
+        feed([first[:cut], first[cut:] + good[:2], good[2:]])
+        return sink.packets == [first, good]
+
+
 _flags.int_format_placeholder = True     # log f-strings with symbolic ints are not the subject here (see vf/flags.py)
